@@ -118,6 +118,15 @@ def implicit_raises(prog, rep):
             "ValueError": "the token can contain characters int() rejects (str.isdigit admits non-decimal digits such as '²')" if "DEC" in missing else "the token can be empty",
             "AttributeError": "the token class can be None here (blank argument)",
         }[key[2]]
+        # the facts at this site come through the callers named in the context: if one of them works through a class the
+        # analysis could not take apart, the missing fact may simply not have been carried across it
+        opaque_ctx = None
+        for part in [x.strip() for x in (s.ctx or "").split(">") if x.strip()]:
+            short = part.split(".", 1)[1] if part.startswith("query2.") or part.startswith("functions.") else part
+            opaque_ctx = opaque_ctx or rep._opaque_structure(short)
+        if opaque_ctx:
+            rep.undecided("IMPLICIT-RAISE", s.fi.short, f"{key[1]} ({key[2]})", f"[not decided: {opaque_ctx}] would-be finding: `{key[1]}` may raise {key[2]} (missing facts {missing}; reached via {s.ctx})", s.fi.loc(s.node))
+            continue
         rep.violation("IMPLICIT-RAISE", s.fi.short, f"{key[1]} ({key[2]})", f"`{key[1]}` may raise {key[2]}: the analysis cannot exclude the failing case (missing facts {missing}; known {sorted(s.have)}; reached via {s.ctx}): {hint}; the exception is not a query error", s.fi.loc(s.node), expected=sorted(s.need), found=sorted(s.have))
     rep.floor("may-raise sites analysed", len(it.safe) + len(it.unsafe), 9)
     for x in sorted(res.raises):
